@@ -15,6 +15,8 @@ CFG = '''CONSTANTS
   MaxWire = %(wire)d
   MaxDev = %(dev)d
   DataSeqs <- MCDataSeqs
+  DevSeqs <- MCDevSeqs
+  ReadLens = {%(readlens)s}
   IllegalCmds = {%(illegal)s}
 SPECIFICATION Spec
 %(view)s
@@ -30,10 +32,14 @@ CHECK_DEADLOCK FALSE
 '''
 
 
-def module(dataseqs):
-  return ('---- MODULE MCMux ----\nEXTENDS AdbMux\nMCDataSeqs == {%s}\n'
+def _seqs(seqs):
+  return ', '.join('<<%s>>' % ', '.join('"%s"' % c for c in d) for d in seqs)
+
+
+def module(dataseqs, devseqs=(('a',), ('b',))):
+  return ('---- MODULE MCMux ----\nEXTENDS AdbMux\nMCDataSeqs == {%s}\nMCDevSeqs == {%s}\n'
           'DesignView == <<wire, st, sent, last, devw, hostr, nops>>\n====\n'
-          % ', '.join('<<%s>>' % ', '.join('"%s"' % c for c in d) for d in dataseqs))
+          % (_seqs(dataseqs), _seqs(devseqs)))
 
 
 ERR = {'TIMEOUT': ('UsbReadFailedError', 'AdbTimeoutError'), 'CLOSED': ('AdbStreamClosedError',),
@@ -114,7 +120,7 @@ def _replay(hist, limit, maxdata):
       if kind == 'dev':
         cmd, h, d = op[1], op[2], op[3]
         if h:
-          dev.rx += usbfake.frame(cmd, 100 + h, dev.lids[h], d)
+          dev.rx += usbfake.frame(cmd, 100 + h, dev.lids[h], ''.join(d))
         elif cmd == 'WRTE':
           dev.rx += usbfake.frame('WRTE', 999, limit + 5, 'a')
         else:
@@ -133,7 +139,7 @@ def _replay(hist, limit, maxdata):
             got = 'stream'
             streams[h] = r
         elif kind == 'read':
-          data = streams[op[1]].read(timeout_ms=10000)
+          data = streams[op[1]].read(op[2], timeout_ms=10000)
           got = ['data', list(data)]
         elif kind == 'write':
           dev.ack = op[3]
